@@ -449,7 +449,10 @@ def _run_task(args):
     err = None
     import contextlib
     try:
-        with open(os.devnull, "w") as devnull, \
+        # the package's own terminal output goes to a sink that, like the
+        # console of many installations (cp1252, C locale), cannot encode
+        # everything: a message that needs more than ASCII fails there
+        with open(os.devnull, "w", encoding="ascii") as devnull, \
                 contextlib.redirect_stdout(devnull):
             sub.run(ctx, n)
     except HarnessError as exc:
